@@ -21,7 +21,8 @@ def run(ck):
         key = f'partial/{b}/eav.c'
         tu = eav[key]
         ck.analysed(units=[key], functions=[f'{key}:eav_setup', f'{key}:eav_is_email'])
-        eng, paths = cfgpaths.summarise(tu, 'eav_setup')
+        from rules.c13 import setup_paths
+        paths = setup_paths(tu)
         enumerators = tu.enum_decls.get('EAV_RFC')
         if not enumerators: raise AnalysisBroken('enum EAV_RFC not found')
         arms = {}
@@ -39,7 +40,10 @@ def run(ck):
             for p in ps:
                 cb_sets = {e[1]: e[2] for e in p.sets() if e[1] in ('eav->ascii_cb', 'eav->utf8_cb')}
                 u = p.last_set('eav->utf8')
-                if mode == '6531':
+                if mode == '6531' and p.ret()[1] not in ('EEAV_NO_ERROR', '0'):
+                    # backend failure (idnkit): nothing may have been switched
+                    if cb_sets or u is not None: why.append(f'failed 6531 setup (returns {p.ret()[1]}) has already assigned {sorted(cb_sets) + (["eav->utf8"] if u else [])}')
+                elif mode == '6531':
                     if cb_sets != {'eav->utf8_cb': 'is_6531_email'}: why.append(f'callbacks set: {cb_sets}')
                     if u is None or u[2] != '1': why.append('utf8 not set to true')
                 else:
